@@ -496,6 +496,9 @@ def templates():
             ("masked_select", lambda: a.masked_select(mask)), ("diagonal", lambda: a.diagonal()), ("tril", lambda: a.tril()),
             ("triu", lambda: a.triu()), ("expand_as", lambda: a.unsqueeze(0).expand_as(torch.empty((2,) + tuple(a.shape)))),
             ("hsplit", lambda: a.hsplit(1)), ("vsplit", lambda: a.vsplit(1)),
+            # wrappers rebuilt around the same inner tensors
+            ("parameter", lambda: torch.nn.Parameter(a, requires_grad=False)), ("data", lambda: a.data),
+            ("detach_twice", lambda: a.detach().detach()), ("alias", lambda: torch.ops.aten.alias(a)),
         ]
         name, f = progs[int(r.integers(len(progs)))]
         p.note = name
@@ -641,6 +644,14 @@ def templates():
         else:
             w, _k = p.partner((out_f, in_f), kind)
         bias = p.randn((out_f,)) if p.rng.random() < 0.5 else None
+        # the same call spelled with keywords, as torch documents it: linear(input, weight, bias=None)
+        sp = p.rng.random()
+        if sp < 0.15:
+            return lambda: F.linear(a, weight=w, bias=bias)
+        if sp < 0.3:
+            return lambda: F.linear(input=a, weight=w, bias=bias)
+        if sp < 0.4:
+            return lambda: F.linear(a, w, bias=bias)
         return lambda: F.linear(a, w, bias)
 
     @reg("linear_reused_weight")
